@@ -273,27 +273,31 @@ Qed.
 Lemma sum_power_exact ms : sum_exact ms < two64 -> sum_power ms = sum_exact ms.
 Proof. intros H. unfold sum_power. rewrite sum_power_from; lia. Qed.
 
-(* the generated threshold expression is floor(2T/3)+1 whenever 2T does not wrap (T < 2^63) *)
-Lemma minimumMaj23_spec T : T < 9223372036854775808 -> minimumMaj23 T = 2 * T / 3 + 1.
+(* the generated threshold expression 2*(T/3) + 2*(T mod 3)/3 + 1 is floor(2T/3)+1 for every 64-bit total:
+   no intermediate value reaches 2^64 (before the repair of lib/consensus.go the expression was (2*T)/3+1, which
+   wrapped for T >= 2^63; KNOWN_FINDINGS "threshold wraps") *)
+Lemma minimumMaj23_spec T : T < two64 -> minimumMaj23 T = 2 * T / 3 + 1.
 Proof.
-  intros H. unfold minimumMaj23.
-  rewrite (mul64_exact 2 T) by (unfold two64; lia).
-  apply add64_exact. unfold two64. lia.
+  intros H. unfold minimumMaj23. unfold two64 in H.
+  rewrite (mul64_exact 2 (T / 3)) by (unfold two64; lia).
+  rewrite (mul64_exact 2 (T mod 3)) by (unfold two64; lia).
+  rewrite (add64_exact (2 * (T / 3))) by (unfold two64; lia).
+  rewrite add64_exact by (unfold two64; lia). lia.
 Qed.
 
-(* at and above 2^63 the Go expression wraps: observation O-1 *)
-Lemma minimumMaj23_wraps : minimumMaj23 9223372036854775808 = 1.
+(* at 2^63, where the former expression evaluated to 1, the threshold is now exact *)
+Lemma minimumMaj23_at_2_63 : minimumMaj23 9223372036854775808 = 2 * 9223372036854775808 / 3 + 1.
 Proof. vm_compute. reflexivity. Qed.
 
 Theorem threshold_spec cap chain dlg vals vs :
   get_validator_set cap chain dlg vals = Some vs ->
-  sum_exact (committee_list cap chain dlg vals) < 9223372036854775808 ->
+  sum_exact (committee_list cap chain dlg vals) < two64 ->
   total vs = sum_exact (committee_list cap chain dlg vals) /\
   maj23 vs = 2 * total vs / 3 + 1 /\ total vs <> 0 /\
   num vs = N.of_nat (length (committee_list cap chain dlg vals)).
 Proof.
   unfold get_validator_set. intros H Hb.
-  rewrite sum_power_exact in H by (unfold two64; lia).
+  rewrite sum_power_exact in H by exact Hb.
   destruct (_ =? 0) eqn:E; [discriminate|]. injection H as <-. simpl.
   repeat split; [now apply minimumMaj23_spec | lia].
 Qed.
@@ -308,10 +312,10 @@ Qed.
 
 (* model (generated threshold, wrapping sum) = specification (exact sum, floor(2T/3)+1) below 2^63 *)
 Theorem model_eq_spec cap chain dlg vals :
-  sum_exact (committee_list cap chain dlg vals) < 9223372036854775808 ->
+  sum_exact (committee_list cap chain dlg vals) < two64 ->
   get_validator_set cap chain dlg vals = spec_validator_set cap chain dlg vals.
 Proof.
   intros Hb. unfold get_validator_set, spec_validator_set.
-  rewrite sum_power_exact by (unfold two64; lia).
+  rewrite sum_power_exact by exact Hb.
   destruct (_ =? 0); [reflexivity|]. now rewrite minimumMaj23_spec.
 Qed.
